@@ -425,8 +425,10 @@ def main():
             grid = CTMCGrid(h=step * U, origin_coordinate=nl, axes=[axis] * d)
             atoms = atomic.joint_atoms_in_box([-nl * step] * d, [nr * step] * d, d, rng, 70 if d == 2 else 120, wmax=4)
             method = [SamplingMethod.INVERSION, SamplingMethod.BINARYSEARCHTREEADAPTED][(ci + rep) % 2]
+            # d = 3, first scenario: two margins without diffusion and one with (a singular variance matrix)
+            sig = [0, 0, 16] if (d == 3 and rep == 0) else [rng.choice([0, 8, 16]) for _ in range(d)]
             traces.append(run_copula_coupling(f"cp{len(traces)}", f"copula{d}d:" + method.name, grid, atoms, d, method,
-                                              [rng.choice([0, 8, 16]) for _ in range(d)], [rng.randint(-9, 9) for _ in range(d)], lv))
+                                              sig, [rng.randint(-9, 9) for _ in range(d)], lv))
     # one distinct axis per dimension (user-built grids): irregular multiples of the step away from the origin
     for rep in range(2 if quick else 6):
         d = 2 if rep % 3 != 2 else 3
